@@ -45,7 +45,9 @@ def decode_message(wire: bytes):
             return None, "body shorter than content-length"
         body, rest = rest[:n], rest[n:]
     else:
-        if not tes[0].lower().replace(b" ", b"").endswith(b"chunked"):
+        codings = [t.strip(b" \t").lower() for t in tes[0].split(b",")]
+        codings = [t for t in codings if t]          # empty list elements are ignored (RFC 9110 section 5.6.1)
+        if not codings or codings[-1] != b"chunked":
             return None, "transfer-encoding without final chunked"
         body = b""
         while True:
